@@ -107,4 +107,61 @@ theorem direct_remembered {α} (c : Callable α) (args : List α) (kw : Kw α) :
   | base d self binds => simp [Callable.remembered, direct]
   | part d a0 k0 inner ih => simp [Callable.remembered, direct, ih]
 
+theorem keys_dictSet {α} (d : Kw α) (k : String) (v : α) :
+    keys (dictSet d k v) = if k ∈ keys d then keys d else keys d ++ [k] := by
+  induction d with
+  | nil => simp [dictSet, keys]
+  | cons p r ih =>
+    obtain ⟨k1, v1⟩ := p
+    by_cases h : k1 = k
+    · subst h; simp [dictSet, keys]
+    · have hne : ¬ k = k1 := fun e => h e.symm
+      simp only [dictSet, h, if_false, keys, List.map_cons, List.mem_cons, hne, false_or] at ih ⊢
+      by_cases hm : k ∈ List.map Prod.fst r
+      · simp [hm] at ih ⊢; exact ih
+      · simp [hm] at ih ⊢; exact ih
+
+theorem nodup_dictSet {α} (d : Kw α) (k : String) (v : α) (h : (keys d).Nodup) : (keys (dictSet d k v)).Nodup := by
+  rw [keys_dictSet]
+  by_cases hm : k ∈ keys d
+  · simp [hm, h]
+  · simp only [hm, if_false]
+    rw [List.nodup_append]
+    refine ⟨h, by simp, ?_⟩
+    intro a ha b hb
+    simp at hb
+    subst hb
+    intro e; subst e; exact hm ha
+
+theorem nodup_dictUpdate {α} (d u : Kw α) (h : (keys d).Nodup) : (keys (dictUpdate d u)).Nodup := by
+  induction u generalizing d with
+  | nil => simpa [dictUpdate] using h
+  | cons p r ih =>
+    have : dictUpdate d (p :: r) = dictUpdate (dictSet d p.1 p.2) r := by simp [dictUpdate]
+    rw [this]
+    exact ih _ (nodup_dictSet d p.1 p.2 h)
+
+theorem dictGet_none_of_not_mem {α} (d : Kw α) (k : String) (h : k ∉ keys d) : dictGet k d = none := by
+  induction d with
+  | nil => rfl
+  | cons p r ih =>
+    obtain ⟨k1, v1⟩ := p
+    simp only [keys, List.map_cons, List.mem_cons, not_or] at h
+    have : ¬ k1 = k := fun e => h.1 e.symm
+    simp [dictGet, this, ih (by simpa [keys] using h.2)]
+
+theorem lastIn_eq_dictGet {α} (u : Kw α) (k : String) (h : (keys u).Nodup) : lastIn k u = dictGet k u := by
+  induction u with
+  | nil => rfl
+  | cons p r ih =>
+    obtain ⟨k1, v1⟩ := p
+    simp only [keys, List.map_cons, List.nodup_cons] at h
+    have ih' := ih (by simpa [keys] using h.2)
+    by_cases hk : k1 = k
+    · subst hk
+      have := dictGet_none_of_not_mem r k1 (by simpa [keys] using h.1)
+      simp [lastIn, dictGet, ih', this]
+    · simp only [lastIn, dictGet, hk, if_false, ih']
+      cases dictGet k r <;> rfl
+
 end Malt.Policy
